@@ -233,6 +233,7 @@ type simCore struct {
 	stop       bool
 	violated   bool
 	quietAfter int64 // no fate randomness after this time (heal)
+	snmpBase   snmpLoss
 
 	onEvent func(s *simCore) // extra per-event monitor of the property under test
 
@@ -485,7 +486,9 @@ func installSimHooks() {
 func (s *simCore) input(e *coreEnd, data []byte) int {
 	// the core sees a private copy, as the read loop's buffer would be
 	buf := append([]byte(nil), data...)
-	return e.k.Input(buf, IKCP_PACKET_REGULAR, e.cfg.AckNoDelay)
+	r := e.k.Input(buf, IKCP_PACKET_REGULAR, e.cfg.AckNoDelay)
+	s.noteFlush(e)
+	return r
 }
 
 func (s *simCore) armTick(e *coreEnd, at int64) {
@@ -493,6 +496,7 @@ func (s *simCore) armTick(e *coreEnd, at int64) {
 }
 
 func (s *simCore) start() {
+	s.snmpBase = s.snmpLoss()
 	for _, e := range s.ends {
 		s.armTick(e, 0)
 		s.push(&simEvent{t: 0, kind: evApp, end: e.idx})
@@ -507,6 +511,7 @@ func (s *simCore) tick(e *coreEnd) {
 	k := e.k
 	if e.cfg.Style == 0 {
 		iv := k.flush(IKCP_FLUSH_FULL)
+		s.noteFlush(e)
 		if iv == 0 {
 			iv = 1
 		}
@@ -514,6 +519,7 @@ func (s *simCore) tick(e *coreEnd) {
 		return
 	}
 	k.Update()
+	s.noteFlush(e)
 	next := k.Check()
 	d := int64(_itimediff(next, currentMs()))
 	if d < 1 {
@@ -595,9 +601,16 @@ func (s *simCore) snmpLoss() snmpLoss {
 
 // afterEvent: the always-on invariants (C04 occupancy, C18 RTO bound) and the
 // bookkeeping for the timeout-loss rule.
-func (s *simCore) afterEvent(e *coreEnd, before snmpLoss) {
+// noteFlush does the bookkeeping of the timeout-loss rule. It must run after
+// every flush of end e (an event can contain several: Input flushes, then the
+// writer flushes), because a fast/early retransmission in one flush legitimately
+// re-opens the window for the next one. The SNMP counters are global, the
+// simulation is single-threaded: what moved since the last call belongs to e.
+func (s *simCore) noteFlush(e *coreEnd) {
 	k := e.k
 	now := s.snmpLoss()
+	before := s.snmpBase
+	s.snmpBase = now
 	if e.lossPending && k.snd_una != e.lossUna {
 		e.lossPending = false
 	}
@@ -610,6 +623,11 @@ func (s *simCore) afterEvent(e *coreEnd, before snmpLoss) {
 		e.lossPending = true
 		e.lossUna = k.snd_una
 	}
+}
+
+func (s *simCore) afterEvent(e *coreEnd, before snmpLoss) {
+	k := e.k
+	s.noteFlush(e)
 	if n := k.rcv_queue.Len(); n > int(k.rcv_wnd) {
 		s.viol("C04 delivery queue holds more than one receive window", "end %s: %d segments queued, rcv_wnd=%d", e.name, n, k.rcv_wnd)
 	} else if n > e.maxRcvQ {
@@ -715,6 +733,7 @@ func (s *simCore) appStep(e *coreEnd, canRead bool) {
 		}
 		if e.cfg.Style == 0 && (k.WaitSnd() >= int(k.snd_wnd) || !e.cfg.WriteDelay) {
 			k.flush(IKCP_FLUSH_FULL)
+			s.noteFlush(e)
 		}
 	}
 	// ---- reader ----
